@@ -41,7 +41,14 @@ BASE = [
     # documented stale state: a term is cancelled without refresh(), the model still reports its variable
     ("stale", {(0,): 1, (): 3}),
     ("shuffled", {(1, 2): 2, (0, 1): -1, (2, 3): 0.5, (0, 3): 3, (1, 3): -2, (2,): 1, (0,): -0.5}),
+    # value slices (few configurations each, see VALUE_ONLY): coefficients that are not exact in single precision, and unit terms
+    # next to a weight of 2^26 (the reported value must be the double-precision evaluation)
+    ("nondyadic2", {(0, 1): 0.1, (0,): 0.3, (1, 2): -0.7, (): 0.2}),
+    ("nondyadic3", {(0, 1, 2): 0.1, (0,): 0.3, (1, 2): 0.7, (): 0.2}),
+    ("bigweight2", {(0, 1): 2 ** 26, (0,): 1, (1, 2): 1, (): 3}),
+    ("bigweight3", {(0, 1, 2): 3, (0, 1): 2 ** 26, (0,): 1, (1, 2): 1}),
 ]
+VALUE_ONLY = ("nondyadic2", "nondyadic3", "bigweight2", "bigweight3")
 SCHEDULES = [
     ("geom-default", {"anneal_duration": 2}),
     ("linear-2-1", {"anneal_duration": 3, "temperature_range": (2, 1), "schedule": "linear"}),
@@ -71,7 +78,9 @@ def configs(tier):
                     fns = (["anneal_quso"] if deg <= 2 else []) + ["anneal_puso"] if kind == "spin" else (["anneal_qubo"] if deg <= 2 else []) + ["anneal_pubo"]
                     for fn in fns:
                         for sname, _kw in SCHEDULES:
-                            for init in INITS:
+                            if bname in VALUE_ONLY and (sname not in ("geom-default", "zero") or sch not in ("int", "str")):
+                                continue
+                            for init in (INITS if bname not in VALUE_ONLY else ("none", "alt")):
                                 for in_order in (True, False):
                                     yield {"kind": kind, "base": bname, "container": cont, "scheme": sch, "fn": fn, "schedule": sname, "init": init, "in_order": in_order}
 
